@@ -64,6 +64,7 @@ const (
 	vfC08Shutdown
 	vfC08Publish
 	vfC08AliveWindow
+	vfC08ShutdownInAddClient
 )
 
 type vfC08Step struct {
@@ -148,6 +149,8 @@ func (s vfC08Step) String() string {
 		r = "Node.Shutdown"
 	case vfC08Publish:
 		r = fmt.Sprintf("publish(c%d)", s.Ch)
+	case vfC08ShutdownInAddClient:
+		r = fmt.Sprintf("shutdownWhileConnectInsideAddClient(k%d)", s.Conn)
 	case vfC08AliveWindow:
 		r = fmt.Sprintf("aliveWindow(k%d clear=%v close=%s)", s.Conn, s.Clear, []string{"Client.Disconnect", "Node.Disconnect", "transportClose", "Node.Shutdown"}[s.Close])
 	}
@@ -233,6 +236,9 @@ func vfC08Gen(rt *rapid.T) vfC08Case {
 		}
 		if i == shutdownAt {
 			s.Kind = vfC08Shutdown
+			if rapid.IntRange(0, 2).Draw(rt, "shutdown_in_addclient") == 0 {
+				s.Kind = vfC08ShutdownInAddClient
+			}
 		}
 		if i < nc && i != shutdownAt && rapid.IntRange(0, 4).Draw(rt, "early_connect") > 0 {
 			s.Kind = vfC08Connect
@@ -277,7 +283,7 @@ func vfC08Gen(rt *rapid.T) vfC08Case {
 			s.Close = rapid.SampledFrom([]int{0, 0, 1, 2, 2, 3}).Draw(rt, "awClose")
 			s.Clear = rapid.Bool().Draw(rt, "awClear")
 		}
-		if s.Kind != vfC08Advance && s.Kind != vfC08Release && s.Kind != vfC08AliveWindow && !(s.Kind == vfC08Subscribe && !s.Gate) {
+		if s.Kind != vfC08Advance && s.Kind != vfC08Release && s.Kind != vfC08AliveWindow && s.Kind != vfC08ShutdownInAddClient && !(s.Kind == vfC08Subscribe && !s.Gate) {
 			// An un-gated subscribe is never started together with another operation: the reply is written before the
 			// subscription is committed, so "established" would be undefined for a close landing in between.
 			s.Par = rapid.IntRange(0, 3).Draw(rt, "par") == 0
@@ -394,6 +400,7 @@ func vfC08Run(t *testing.T, cs vfC08Case, out *vfC08Out, isKnown func(string) bo
 		if cs.Sched {
 			cfg.ClientTimerScheduler = vfC08Sched{}
 		}
+		cfg.Metrics.ExposeTransportAcceptProtocol = true // makes Transport.AcceptProtocol an interface call inside addClient
 		var world *vfWorld
 		states := make([]*vfC08ConnState, len(cs.Conns))
 		byConn := map[*vfConn]*vfC08ConnState{}
@@ -716,7 +723,7 @@ func vfC08Run(t *testing.T, cs vfC08Case, out *vfC08Out, isKnown func(string) bo
 				guardClose(sameUser(k))
 			case vfC08Shutdown:
 				guardClose(states)
-			case vfC08GapPublish, vfC08Publish, vfC08Advance, vfC08AliveWindow:
+			case vfC08GapPublish, vfC08Publish, vfC08Advance, vfC08AliveWindow, vfC08ShutdownInAddClient:
 				// one delivery gap or one presence tick can spawn several close() calls for the same client at once
 				releaseAllSubGates()
 			}
@@ -816,6 +823,57 @@ func vfC08Run(t *testing.T, cs vfC08Case, out *vfC08Out, isKnown func(string) bo
 				_, _ = w.node.Publish(chName(s.Ch), []byte(`{"x":2}`), WithHistory(20, time.Minute))
 			case vfC08Advance:
 				time.Sleep(time.Duration(s.AdvMs) * time.Millisecond)
+			case vfC08ShutdownInAddClient:
+				// Park a connect inside Node.addClient (Transport.AcceptProtocol is called there, right before hub.add,
+				// when Metrics.ExposeTransportAcceptProtocol is set), run Node.Shutdown to completion, release. The client's
+				// c.mu is held while parked: nothing of that client is touched and the clock does not advance.
+				if inPar {
+					vfSettle()
+				}
+				if shutdownDone != nil {
+					break
+				}
+				target := k
+				if target.connectAt > 0 {
+					target = nil
+					for _, x := range states {
+						if x.connectAt == 0 && x.idle() {
+							target = x
+							break
+						}
+					}
+				}
+				if target == nil {
+					applied = true
+					startShutdown()
+					break
+				}
+				if closed, _ := target.conn.T.Closed(); closed {
+					applied = true
+					startShutdown()
+					break
+				}
+				gate := "accept:" + target.conn.Name
+				w.Gates.Arm(gate, 1)
+				target.connectAt = w.seq.Add(1)
+				clientCmd(target, func() { target.conn.Connect(nil) })
+				vfSettle()
+				applied = true
+				parked := w.Gates.Waiting(gate) > 0
+				startShutdown()
+				vfSettle()
+				if parked {
+					out.label("shutdown_while_connect_inside_addClient")
+					if shutdownCompleted() {
+						out.label("shutdown_completed_while_connect_inside_addClient")
+					}
+				}
+				w.Gates.Disarm(gate)
+				w.Gates.Release(gate)
+				vfSettle()
+				if parked {
+					aliveWindows++ // counts as a reached window for the non-trivial rule
+				}
 			case vfC08AliveWindow:
 				// Park the alive callback of this connection at its next presence tick and start ONE closing operation
 				// while it is parked. The library holds presenceMu across the alive callback, so on a correct tree close()
